@@ -8,9 +8,8 @@ def run(tier, seed):
     v = Verdict(PROP, tier, seed)
     v.assumptions = ["TLC bounds: width 2, 2 clients x 2 workers, 3-4 items; dispatch_apply on the queue is covered by C10",
                      "real queues narrowed to width 2/3 with dispatch_queue_set_width so the model's arithmetic is exercised"]
-    run_models(v, PROP, ["Q2b"] if tier == "quick" else ["Q2b", "Q2q", "Q2"], timeout=3000)
-    run_mutants(v, PROP, [("Q2b", "reader_ignores_pending_barrier")] if tier == "quick" else
-                [("Q2b", "reader_ignores_pending_barrier"), ("Q2q", "reader_ignores_pending_barrier")])
+    run_models(v, PROP, ["Q2b"] if tier == "quick" else ["Q2b", "Q2m", "Q2q", "Q2"], timeout=3000)
+    run_mutants(v, PROP, [("Q2q", "upgrade_ignores_readers")])
     dqstate_conformance(v, PROP)
     n = 1 if tier == "quick" else 8
     runs = []
